@@ -3,11 +3,12 @@
 -/
 import DemesVerif.Ops.Core
 import DemesVerif.Ops.IO
+import DemesVerif.Ops.Handles
 namespace Demes.Ops
 open Lean
 
 def dispatchers : List (String → Json → Option Json) :=
-  [Core.dispatch?, IO.dispatch?]
+  [Core.dispatch?, IO.dispatch?, Handles.dispatch?]
 
 def dispatch (j : Json) : Json :=
   match j.getObjValAs? String "op" with
